@@ -371,3 +371,219 @@ theorem removeFold_ok {tbl : Table} (onSnap earlySnap R : NatSet) :
         exact ⟨⟨p, fun h' => q ⟨Or.inl h'.1, h'.2⟩⟩, fun h' => q ⟨Or.inr h'.1, h'.2.1⟩⟩
 
 end BA.Sector
+
+namespace BA.Sector
+open BA BA.NatSet
+
+/-- the `iter_while_mut` traversal of `remove_sectors` over an invariant queue -/
+theorem removeFaultyTraverse_ok {tbl : Table} {F L R : NatSet} {FI : List SectorInfo}
+    (hnd : (nums FI).Nodup) (hFI : ∀ i ∈ FI, alookup i.num tbl = some i ∧ i.num ∈ F) :
+    ∀ (q q' : Queue) (removed removed' : ExpSet) (rp rp' : PowerPair) (rem rem' : NatSet),
+    QInv tbl F L q → rem.Nodup → (∀ x ∈ nums FI, qsecs q x → x ∈ rem) →
+    removeFaultyTraverse FI R q removed rp rem = .ok (q', removed', rp', rem') →
+    Sorted q' ∧
+    (∀ e v, (e, v) ∈ q' → ∃ es0, (e, es0) ∈ q ∧ (∀ x ∈ v.all, x ∈ es0.all) ∧
+      EntryOK tbl (diff F (nums FI)) (diff L (nums FI)) v) ∧
+    removed'.active = removed.active ∧
+    removed'.faulty + powOf tbl rem' = removed.faulty + powOf tbl rem ∧
+    rp' + powOf tbl (inter rem' R) = rp + powOf tbl (inter rem R) ∧
+    (∀ x, (x ∈ removed'.onTime ∨ x ∈ removed'.early ∨ x ∈ rem') ↔
+      (x ∈ removed.onTime ∨ x ∈ removed.early ∨ x ∈ rem)) ∧
+    (removed.onTime.Nodup → removed'.onTime.Nodup) ∧ (removed.early.Nodup → removed'.early.Nodup) := by
+  intro q
+  induction q with
+  | nil =>
+    intro q' removed removed' rp rp' rem rem' _ _ _ h
+    simp only [removeFaultyTraverse, Except.ok.injEq, Prod.mk.injEq] at h
+    obtain ⟨rfl, rfl, rfl, rfl⟩ := h
+    exact ⟨by simp [Sorted], by simp, rfl, rfl, rfl, fun x => Iff.rfl, fun h => h, fun h => h⟩
+  | cons hd rest ih =>
+    intro q' removed removed' rp rp' rem rem' hq hrn hwant h
+    obtain ⟨e, es⟩ := hd
+    have hq' := qinv_tail hq
+    have hes := hq.entry e es (by simp)
+    have hdt := head_disj_tail hq
+    have hlt := sorted_head_lt hq.sorted
+    unfold removeFaultyTraverse at h
+    simp only at h
+    have fo := removeFold_ok (tbl := tbl) es.onTime es.early R FI
+      { es := es, removed := removed, recovering := rp, remaining := rem } F L hes hnd hFI
+      (fun i _ => ⟨Iff.rfl, Iff.rfl⟩)
+      (fun i hi hin => hwant i.num (List.mem_map_of_mem hi) ⟨e, es, by simp, hin⟩) hrn
+    generalize hA : FI.foldl (removeFaultyOne es.onTime es.early R)
+      { es := es, removed := removed, recovering := rp, remaining := rem } = A at h fo
+    cases hv : A.es.validate with
+    | error err => simp [hv] at h
+    | ok u =>
+      cases u
+      simp only [hv] at h
+      have hcons : ∀ (qq : Queue), Sorted qq →
+          (∀ e2 v, (e2, v) ∈ qq → ∃ es0, (e2, es0) ∈ rest ∧ (∀ x ∈ v.all, x ∈ es0.all) ∧
+            EntryOK tbl (diff F (nums FI)) (diff L (nums FI)) v) →
+          Sorted (if A.es.isEmpty then qq else (e, A.es) :: qq) ∧
+          (∀ e2 v, (e2, v) ∈ (if A.es.isEmpty then qq else (e, A.es) :: qq) →
+            ∃ es0, (e2, es0) ∈ (e, es) :: rest ∧ (∀ x ∈ v.all, x ∈ es0.all) ∧
+              EntryOK tbl (diff F (nums FI)) (diff L (nums FI)) v) := by
+        intro qq hsq hqq
+        have lift : ∀ e2 v, (e2, v) ∈ qq → ∃ es0, (e2, es0) ∈ (e, es) :: rest ∧
+            (∀ x ∈ v.all, x ∈ es0.all) ∧ EntryOK tbl (diff F (nums FI)) (diff L (nums FI)) v := by
+          intro e2 v hm
+          obtain ⟨es0, a, b, c⟩ := hqq e2 v hm
+          exact ⟨es0, List.mem_cons_of_mem _ a, b, c⟩
+        by_cases hem : A.es.isEmpty = true
+        · simp only [hem, if_true]; exact ⟨hsq, lift⟩
+        · simp only [hem, Bool.false_eq_true, if_false]
+          refine ⟨List.pairwise_cons.mpr ⟨?_, hsq⟩, ?_⟩
+          · intro x hx
+            obtain ⟨es0, a, _, _⟩ := hqq x.1 x.2 hx
+            exact hlt (x.1, es0) a
+          · intro e2 v hm
+            rcases List.mem_cons.mp hm with hm | hm
+            · cases hm; exact ⟨es, by simp, fo.sub, fo.entry⟩
+            · exact lift e2 v hm
+      by_cases hem2 : A.remaining.isEmpty = true
+      · simp only [hem2, if_true, Except.ok.injEq, Prod.mk.injEq] at h
+        obtain ⟨rfl, rfl, rfl, rfl⟩ := h
+        have hr2 : ∀ x, x ∉ A.remaining := isEmpty_iff.mp hem2
+        have tailok : ∀ e2 v, (e2, v) ∈ rest → ∃ es0, (e2, es0) ∈ rest ∧ (∀ x ∈ v.all, x ∈ es0.all) ∧
+            EntryOK tbl (diff F (nums FI)) (diff L (nums FI)) v := by
+          intro e2 v hm
+          refine ⟨v, hm, fun x hx => hx, ?_⟩
+          have hnf : ∀ x ∈ v.all, x ∉ nums FI := by
+            intro x hx hf
+            have h1 := hwant x hf ⟨e2, v, List.mem_cons_of_mem _ hm, hx⟩
+            have h2 : x ∉ es.all := fun hin => hdt x hin ⟨e2, v, hm, hx⟩
+            exact hr2 x ((fo.rem x).mpr ⟨h1, fun h' => h2 h'.2⟩)
+          apply entryOK_frame (hq'.entry e2 v hm)
+          · intro x hx; simp [mem_diff, hnf x hx]
+          · intro x hx; exact mem_diff.mpr ⟨(hq'.entry e2 v hm).live x hx, hnf x hx⟩
+        obtain ⟨c1, c2⟩ := hcons rest hq'.sorted tailok
+        exact ⟨c1, c2, fo.active, fo.faulty, fo.recov, fo.sets, fo.ron, fo.rearly⟩
+      · simp only [hem2, Bool.false_eq_true, if_false] at h
+        cases hrec : removeFaultyTraverse FI R rest A.removed A.recovering A.remaining with
+        | error err => simp [hrec] at h
+        | ok z =>
+          obtain ⟨q3, rm3, rp3, rem3⟩ := z
+          simp only [hrec, Except.ok.injEq, Prod.mk.injEq] at h
+          obtain ⟨rfl, rfl, rfl, rfl⟩ := h
+          obtain ⟨i1, i2, i3, i4, i5, i6, i7, i8⟩ := ih q3 A.removed rm3 A.recovering rp3 A.remaining
+            rem3 hq' fo.remNodup
+            (fun x hf hs => (fo.rem x).mpr ⟨hwant x hf (by
+              obtain ⟨e2, es2, hm, hx2⟩ := hs
+              exact ⟨e2, es2, List.mem_cons_of_mem _ hm, hx2⟩), fun h' => hdt x h'.2 hs⟩) hrec
+          obtain ⟨c1, c2⟩ := hcons q3 i1 i2
+          exact ⟨c1, c2, by rw [i3, fo.active], by rw [i4, fo.faulty], by rw [i5, fo.recov],
+            fun x => (i6 x).trans (fo.sets x), fun h' => i7 (fo.ron h'), fun h' => i8 (fo.rearly h')⟩
+
+end BA.Sector
+
+namespace BA.Sector
+open BA BA.NatSet
+
+theorem nums_filter (p : Nat → Bool) (infos : List SectorInfo) :
+    nums (infos.filter (fun i => p i.num)) = (nums infos).filter p := by
+  induction infos with
+  | nil => rfl
+  | cons i t ih =>
+    simp only [nums, List.filter_cons, List.map_cons] at ih ⊢
+    by_cases h : p i.num = true <;> simp [h, ih]
+
+/-- **`remove_sectors` preserves the queue invariant** and returns exact aggregates: the given
+    sectors (distinct, the table's infos) leave the queue, the live set and the fault set -/
+theorem removeSectors_ok {tbl : Table} {F L R : NatSet} {qs : QuantSpec} {q q' : Queue}
+    {infos : List SectorInfo} {removed : ExpSet} {rr : PowerPair} (h : QInv tbl F L q)
+    (hn : (nums infos).Nodup) (ht : ∀ i ∈ infos, alookup i.num tbl = some i)
+    (hr : removeSectors qs q infos F R = .ok (q', removed, rr)) :
+    QInv tbl (diff F (nums infos)) (diff L (nums infos)) q' ∧
+    (∀ x, x ∈ union removed.onTime removed.early ↔ x ∈ nums infos) ∧
+    (union removed.onTime removed.early).Nodup ∧
+    removed.active = powOf tbl (diff (nums infos) F) ∧
+    removed.faulty = powOf tbl (inter (nums infos) F) ∧
+    rr = powOf tbl (inter (inter (nums infos) F) R) := by
+  unfold removeSectors at hr
+  simp only at hr
+  -- the two halves of the infos
+  have hnf : nums (infos.filter (fun i => !decide (i.num ∈ F))) = diff (nums infos) F :=
+    nums_filter (fun n => !decide (n ∈ F)) infos
+  have hfi : nums (infos.filter (fun i => decide (i.num ∈ F))) = inter (nums infos) F :=
+    nums_filter (fun n => decide (n ∈ F)) infos
+  cases hra : removeActiveSectors qs q (infos.filter (fun i => !decide (i.num ∈ F))) with
+  | error e => simp [hra] at hr
+  | ok x =>
+    obtain ⟨q1, ns, power, pledge, fee⟩ := x
+    simp only [hra] at hr
+    obtain ⟨a1, a2, a3, a4, _, _, _, a8⟩ := removeActiveSectors_qinv h
+      (by rw [hnf]; exact nodup_diff hn)
+      (fun i hi => ht i (List.mem_filter.mp hi).1)
+      (by rw [hnf]; intro x hx; exact (mem_diff.mp hx).2) hra
+    rw [hnf] at a1 a2
+    have hfnd : (nums (infos.filter (fun i => decide (i.num ∈ F)))).Nodup := by
+      rw [hfi]; exact nodup_inter hn
+    rw [ofList_eq_self hfnd] at hr
+    cases hrt : removeFaultyTraverse (infos.filter (fun i => decide (i.num ∈ F))) R q1
+        { onTime := ns, active := power, pledge := pledge, fee := fee } PowerPair.zero
+        (nums (infos.filter (fun i => decide (i.num ∈ F)))) with
+    | error e => simp [hrt] at hr
+    | ok y =>
+      obtain ⟨q2, removed2, rp2, rem2⟩ := y
+      simp only [hrt] at hr
+      by_cases hre : rem2.isEmpty = true
+      · simp only [hre, Bool.not_true, Bool.false_eq_true, if_false, Except.ok.injEq, Prod.mk.injEq] at hr
+        obtain ⟨rfl, rfl, rfl⟩ := hr
+        have hrem2 : rem2 = [] := by cases hs : rem2 <;> simp_all
+        subst hrem2
+        obtain ⟨b1, b2, b3, b4, b5, b6, b7, b8⟩ := removeFaultyTraverse_ok (tbl := tbl) (F := F)
+          (L := diff L (diff (nums infos) F)) (R := R) hfnd
+          (fun i hi => by
+            have := List.mem_filter.mp hi
+            exact ⟨ht i this.1, by simpa using this.2⟩)
+          q1 q2 _ removed2 _ rp2 _ [] a1 hfnd (fun x hx _ => hx) hrt
+        rw [hfi] at b2 b4 b5 b6
+        simp only at b3 b4 b5 b6 b7 b8
+        refine ⟨?_, ?_, ?_, ?_, ?_, ?_⟩
+        · have hq2 := qinv_of_shrink a1 b1 b2
+          apply qinv_frame hq2
+          intro x hx
+          have hl := qsecs_live hq2 hx
+          obtain ⟨hl1, l3⟩ := mem_diff.mp hl
+          obtain ⟨l1, l2⟩ := mem_diff.mp hl1
+          have hns : x ∉ nums infos := fun hs => by
+            by_cases hf : x ∈ F
+            · exact l3 (mem_inter.mpr ⟨hs, hf⟩)
+            · exact l2 (mem_diff.mpr ⟨hs, hf⟩)
+          refine ⟨⟨fun hd => ?_, fun hd => ?_⟩, mem_diff.mpr ⟨l1, hns⟩⟩
+          · exact mem_diff.mpr ⟨(mem_diff.mp hd).1, hns⟩
+          · exact mem_diff.mpr ⟨(mem_diff.mp hd).1, fun hi => hns (mem_inter.mp hi).1⟩
+        · intro x
+          have := b6 x
+          simp only [List.not_mem_nil, or_false] at this
+          rw [mem_union, this, a2]
+          simp only [mem_diff, mem_inter]
+          constructor
+          · rintro (⟨p, _⟩ | p | ⟨p, _⟩)
+            · exact p
+            · exact absurd p (by simp)
+            · exact p
+          · intro p
+            by_cases hf : x ∈ F
+            · exact Or.inr (Or.inr ⟨p, hf⟩)
+            · exact Or.inl ⟨p, hf⟩
+        · exact nodup_union (b7 a3) (b8 (by simp))
+        · rw [b3, a4, sumPow_tbl (fun i hi => ht i (List.mem_filter.mp hi).1), hnf]
+        · have := b4
+          simp only [powOf_nil] at this
+          have e1 := congrArg PowerPair.raw this
+          have e2 := congrArg PowerPair.qa this
+          simp at e1 e2
+          ext <;> simp <;> omega
+        · have := b5
+          simp only [inter, List.filter_nil, powOf_nil] at this
+          have e1 := congrArg PowerPair.raw this
+          have e2 := congrArg PowerPair.qa this
+          simp at e1 e2
+          ext
+          · simp [inter] at e1 ⊢; omega
+          · simp [inter] at e2 ⊢; omega
+      · simp [hre] at hr
+
+end BA.Sector
